@@ -319,4 +319,50 @@ def updateAtRacy (h : Val) : List Step := [.read CELL, .writeIfLess CELL h]
 /-- … and with the caller holding a mutex around it. -/
 def updateAtLocked (h : Val) : List Step := [.lock M, .read CELL, .writeIfLess CELL h, .unlock M]
 
+/-! ## Facts about the source (filled in by the extractor, `M3d/Gen/ConcFacts.lean`) -/
+
+/-- How a worker closure (`go func`, the function passed to `essentials.ConcurrentMap` /
+`StatefulConcurrentMap` / `ReduceConcurrentMap`, a `mapCoordinates` callback) touches state it
+captured from outside, as classified syntactically by the extractor. -/
+inductive EffKind where
+  /-- `x[i] = …` / `&x[i]` with `i` the worker's own index (or derived from it) -/
+  | ownIndex
+  /-- write through a pointer obtained from an accessor applied to the own index -/
+  | ownElem
+  /-- indexed setter call with own-index arguments (`img.Set(x, y, …)`) -/
+  | ownCall
+  /-- write or mutating call between `Lock` and `Unlock` of a mutex shared by all workers
+  (or inside the reduce function of `ReduceConcurrentMap`, which runs under its lock) -/
+  | locked
+  | chanSend | chanRecv | chanClose
+  /-- method call on a `sync.Map` / `atomic.Value` -/
+  | syncCall
+  /-- mutating call on captured state followed by a channel send that hands it over -/
+  | handoff
+  /-- unguarded write to captured state -/
+  | plainWrite
+  /-- unguarded call of a method that mutates captured state -/
+  | sharedMutCall
+  deriving DecidableEq, Repr
+
+/-- The classes for which `Props/C13.lean` has a race-freedom theorem. -/
+def EffKind.safe : EffKind → Bool
+  | .plainWrite => false
+  | .sharedMutCall => false
+  | _ => true
+
+structure Effect where
+  kind : EffKind
+  target : String
+  deriving DecidableEq, Repr
+
+structure Worker where
+  file : String
+  func : String
+  launcher : String
+  effects : List Effect
+  deriving Repr
+
+def Worker.safe (w : Worker) : Bool := w.effects.all (·.kind.safe)
+
 end M3d.Conc
